@@ -4,7 +4,7 @@
    every line.  For Heading and CodeFence the equality covers the class attributes `start` leaves
    behind for `read` (level / content / closing_sequence; _open_info). *)
 From Coq Require Import ZArith List Bool.
-From Mistletoe Require Import Base.Sx Base.PyStr Base.PyText Re.ReMatch Gen.GenRegex Model.Block Gen.GenBlockStart.
+From Mistletoe Require Import Base.Sx Base.PyStr Base.PyText Re.ReMatch Gen.GenTables Gen.GenRegex Model.Block Gen.GenBlockStart.
 Import ListNotations.
 Local Open Scope Z_scope.
 
@@ -57,15 +57,26 @@ Theorem list_markers_regenerated : forall line prepend,
   g_List_check_interrupts_paragraph line = list_interrupts line.
 Proof. intros. split; [apply parse_marker_regen|]. split; [apply parse_continuation_regen|apply list_interrupts_regen]. Qed.
 
+Lemma htmlblock_start_regen line : g_HtmlBlock_start line = htmlblock_start line.
+Proof.
+  unfold g_HtmlBlock_start, htmlblock_start. cbv zeta. destruct (4 <=? _); [reflexivity|].
+  destruct (rmatch re_block_token_HtmlBlock_multiblock _ _) as [m|]; [reflexivity|].
+  destruct (startswith _ (lstrip line)); [reflexivity|]. destruct (startswith _ (lstrip line)); [reflexivity|].
+  destruct (startswith _ (lstrip line) && _); [reflexivity|]. destruct (startswith _ (lstrip line)); [reflexivity|].
+  destruct (rmatch re_block_token_HtmlBlock_predefined _ _) as [m|].
+  - destruct (str_in _ html_tags); [reflexivity|]. destruct (rmatch re_block_token_HtmlBlock_custom_tag _ _); reflexivity.
+  - destruct (rmatch re_block_token_HtmlBlock_custom_tag _ _); reflexivity.
+Qed.
+
 Theorem block_starts_regenerated : forall line,
   g_Quote_start line = quote_start line /\ g_Paragraph_start line = paragraph_start line /\
   g_BlockCode_start line = blockcode_start line /\ g_Table_start line = table_start line /\
   g_Footnote_start line = footnote_start line /\ g_ThematicBreak_start line = thematic_start line /\
   g_List_start line = list_start line /\ g_BlankLine_start line = blankline_start line /\
-  g_Heading_start line = heading_start line /\ g_CodeFence_start line = codefence_start line.
+  g_Heading_start line = heading_start line /\ g_CodeFence_start line = codefence_start line /\ g_HtmlBlock_start line = htmlblock_start line.
 Proof.
   intros line.
   split; [apply quote_start_regen|]. split; [apply paragraph_start_regen|]. split; [apply blockcode_start_regen|].
   split; [apply table_start_regen|]. split; [apply footnote_start_regen|]. split; [apply thematic_start_regen|].
-  split; [apply list_start_regen|]. split; [apply blankline_start_regen|]. split; [apply heading_start_regen|apply codefence_start_regen].
+  split; [apply list_start_regen|]. split; [apply blankline_start_regen|]. split; [apply heading_start_regen|]. split; [apply codefence_start_regen|apply htmlblock_start_regen].
 Qed.
